@@ -123,7 +123,8 @@ theorem exec_le (e : Env) : ∀ (f : Nat) (sk : Sk) (st st' : St), exec e f sk s
       simp only [exec] at h
       split at h
       · cases h; exact le_halt e st
-      · exact le_trans (le_tick e st) (ih _ _ st' h)
+      · have l0 : le st (tick e { st with ok := true }) := ⟨Nat.le_succ _, Nat.le_refl _⟩
+        exact le_trans l0 (ih _ _ st' h)
     | forItems k b =>
       cases k with
       | zero => simp only [exec] at h; cases h; exact le_refl _
@@ -291,7 +292,9 @@ theorem exec_after_of_not (e : Env) : ∀ (f : Nat) (sk : Sk) (st st' : St),
             rw [ih _ st2 st' h hn, ih b _ st2 h2 n2, clear_after, ih c _ st1 h1 n1, tick_after_of_not e st hst]
     | forW n b =>
       simp only [exec, hst, Bool.false_eq_true, if_false] at h
-      rw [ih _ _ st' h hn, tick_after_of_not e st hst]
+      have hst' : cancelled e { st with ok := true } = false :=
+        (cancelled_congr e rfl rfl).trans hst
+      rw [ih _ _ st' h hn, tick_after_of_not e _ hst']
     | forItems k b =>
       cases k with
       | zero => simp only [exec] at h; cases h; rfl
@@ -451,8 +454,9 @@ theorem exec_after_bound (e : Env) : ∀ (f : Nat), BoundAt e f := by
         simp only [exec] at h
         split at h
         · cases h; have := halt_after_le e st; simp only [unwind]; omega
-        · have t0 := tick_after_le e st
+        · have t0 := tick_after_le e { st with ok := true }
           have b1 := ihf (.forItems n b) _ st' (by simpa [wf] using hw) h
+          have e0 : ({ st with ok := true } : St).after = st.after := rfl
           simp only [unwind] at b1 ⊢; omega
       | forItems k b =>
         cases k with
